@@ -81,6 +81,34 @@ def check_fns(rep, proj):
     rep.floor("FNS table cells", n, 20)
 
 
+def _atlas_problems(proj, cell, atlas):
+    """Matching scales of the runner's atlas == (m_q k_q)^2 in the order c, b, t with the ratios of the upgraded card; origin (Q0^2, nf0)."""
+    problems = []
+    s = A.sym
+    exp_scales = []
+    th = R.theory_card(cell)
+    ev2 = S.Evaluator(proj, lenient_ext=True)
+    th2 = dict(th)
+    ev2.call(S.FuncVal(ev2, proj.func("yadism.input.compatibility", "update_fns")), [th2], {})
+    for fl in HQ:
+        m, k = s(f"m{fl}", True), S.num_norm(th2[f"k{fl}Thr"])
+        if isinstance(k, (int, Fraction)) and k == 0:
+            exp_scales.append(0)
+        elif S.is_inf(k):
+            exp_scales.append(S.INF)
+        else:
+            exp_scales.append((m * k) * (m * k))
+    got_scales = [S.num_norm(x) for x in atlas.attrs["matching_scales"]]
+    for fl, g, e in zip(HQ, got_scales, exp_scales):
+        same = (S.is_inf(g) and S.is_inf(e)) or (not S.is_inf(g) and not S.is_inf(e) and A.equal(A.to_rat(g), A.to_rat(e), tol=Fraction(0)))
+        if not same:
+            problems.append(("atlas", f"matching scale of {fl} is {A.canon(g)[:60]}, expected (m_{fl} k_{fl})^2 = {A.canon(e)[:60]}"))
+    org = atlas.attrs.get("origin")
+    if not (isinstance(org, tuple) and len(org) == 2 and A.equal(A.to_rat(S.num_norm(org[0])), s("Q0", True) * s("Q0", True), tol=Fraction(0)) and org[1] == 3):
+        problems.append(("atlas", f"origin is {org}, expected (Q0^2, nf0)"))
+    return problems
+
+
 def _flow_job(kw):
     from .. import model
 
@@ -88,8 +116,11 @@ def _flow_job(kw):
     kw = dict(kw)
     mode = kw.pop("mode")
     calls = []
+    atlas_found = []
+    cell_box = []
 
     def prepare(ev, runner):
+        atlas_found.extend(_atlas_problems(proj, cell_box[0], runner.attrs["configs"].attrs["managers"]["threshold"]))
         orig = ev.ext_calls["eko.matchings.nf_default"]
 
         def nf_default(ev_, mu2, atlas):
@@ -119,37 +150,20 @@ def _flow_job(kw):
 
             ev.ext_calls[fname] = wrapped
 
+    cell_box.append(R.Cell(**kw))
     try:
-        op = O.fold_op(proj, R.Cell(**kw), prepare=prepare)
+        op = O.fold_op(proj, cell_box[0], prepare=prepare)
     except O.FoldFailure as f:
+        if atlas_found:
+            # the runner was built and its atlas is already wrong: report that, whatever stopped the fold of the point afterwards
+            return ("ok", list(atlas_found), None, None, 0)
         return ("fold", f.outcome.status, f"{f.outcome.etype} {f.outcome.msg}"[:160])
     cell = op.cell
     problems = []
     runner = op.runner
     atlas = runner.attrs["configs"].attrs["managers"]["threshold"]
-    # (atlas) matching scales and the single nf_default call
-    s = A.sym
-    exp_scales = []
-    th = R.theory_card(cell)
-    ev2 = S.Evaluator(proj, lenient_ext=True)
-    th2 = dict(th)
-    ev2.call(S.FuncVal(ev2, proj.func("yadism.input.compatibility", "update_fns")), [th2], {})
-    for fl in HQ:
-        m, k = s(f"m{fl}", True), S.num_norm(th2[f"k{fl}Thr"])
-        if isinstance(k, (int, Fraction)) and k == 0:
-            exp_scales.append(0)
-        elif S.is_inf(k):
-            exp_scales.append(S.INF)
-        else:
-            exp_scales.append((m * k) * (m * k))
-    got_scales = [S.num_norm(x) for x in atlas.attrs["matching_scales"]]
-    for fl, g, e in zip(HQ, got_scales, exp_scales):
-        same = (S.is_inf(g) and S.is_inf(e)) or (not S.is_inf(g) and not S.is_inf(e) and A.equal(A.to_rat(g), A.to_rat(e), tol=Fraction(0)))
-        if not same:
-            problems.append(("atlas", f"matching scale of {fl} is {A.canon(g)[:60]}, expected (m_{fl} k_{fl})^2 = {A.canon(e)[:60]}"))
-    org = atlas.attrs.get("origin")
-    if not (isinstance(org, tuple) and len(org) == 2 and A.equal(A.to_rat(S.num_norm(org[0])), s("Q0", True) * s("Q0", True), tol=Fraction(0)) and org[1] == 3):
-        problems.append(("atlas", f"origin is {org}, expected (Q0^2, nf0)"))
+    # (atlas) matching scales (checked right after the runner was built, see prepare) and the single nf_default call
+    problems.extend(atlas_found)
     if not calls:
         problems.append(("single", "the number of flavours of the point is never determined from (Q2, the runner's atlas): neither nf_default nor a count over the atlas walls is evaluated"))
     elif len({str(v) for _, _, v in calls}) != 1:
@@ -230,7 +244,9 @@ def check_flow(rep, proj, tier):
         _, problems, nf, sig, nk = o
         n_kernels += nk
         exp_nf = kw["nf"] if kw["fns"] == "ZM-VFNS" else kw["nfff"]
-        if nf != exp_nf:
+        if nf is None and nk == 0 and problems and all(r_ == "atlas" for r_, _ in problems):
+            pass  # atlas-only report: the point itself could not be folded after the wrong atlas
+        elif nf != exp_nf:
             problems = problems + [("single", f"nf_default yields {nf}, expected {exp_nf} ({'NfFF' if kw['fns'] != 'ZM-VFNS' else 'count of passed thresholds'})")]
         if sig is not None:
             sigs.setdefault((kw["obs"], kw["process"], kw["nf"]), []).append((kw["nfff"], sig))
